@@ -70,7 +70,15 @@ def unions(tier):
                 # nullable discriminated unions (nullable: true next to the discriminator)
                 out.append({"variants": list(sel), "disc": "mapping", "nullable": True, "kw": "oneOf"})
                 out.append({"variants": list(sel), "disc": "mapping", "nullable": True, "kw": "anyOf"})
+    # discriminator property names as real documents spell them (JSON-LD / OData / acronym runs / separators / a Python keyword)
+    for prop in DISC_PROPS:
+        for sel in (["VA", "VB"], ["VAB", "VOpt"], ["VAC", "VB"]):
+            for disc in ("mapping", "implicit"):
+                out.append({"variants": list(sel), "disc": disc, "nullable": False, "kw": "oneOf", "prop": prop})
     return out
+
+
+DISC_PROPS = ["type", "@type", "$type", "@odata.type", "objectID", "pet_type", "pet-type", "petType", "class"]
 
 
 def cases(tier, seed):
@@ -79,7 +87,8 @@ def cases(tier, seed):
 
 
 def describe(u):
-    return f"{u['kw']}[{','.join(u['variants'])}]" + (f" disc={u['disc']}" if u["disc"] != "none" else "") + (" nullable" if u["nullable"] else "")
+    return (f"{u['kw']}[{','.join(u['variants'])}]" + (f" disc={u['disc']}" if u["disc"] != "none" else "") + (" nullable" if u["nullable"] else "")
+            + (f" prop={u['prop']}" if u.get("prop") else "") + (f" name={u['uname']}" if u.get("uname") else ""))
 
 
 def build_doc(us):
@@ -93,8 +102,8 @@ def build_doc(us):
             if v in OBJECTS and u["disc"] != "none":
                 # discriminated twins carry a required `kind`
                 d = json.loads(json.dumps(VARIANTS[v][0]))
-                d["properties"]["kind"] = {"type": "string"}
-                d["required"] = sorted(set(d.get("required", [])) | {"kind"})
+                d["properties"][u.get("prop", "kind")] = {"type": "string"}
+                d["required"] = sorted(set(d.get("required", [])) | {u.get("prop", "kind")})
                 schemas[twin(v, i)] = d
             if v in OBJECTS:
                 members.append(R(v if u["disc"] == "none" else twin(v, i)))
@@ -104,14 +113,15 @@ def build_doc(us):
         if u["nullable"]:
             s["nullable"] = True
         if u["disc"] in ("mapping", "mapping2"):
-            s["discriminator"] = {"propertyName": "kind", "mapping": {v.lower(): "#/components/schemas/" + twin(v, i) for v in u["variants"]}}
+            s["discriminator"] = {"propertyName": u.get("prop", "kind"), "mapping": {v.lower(): "#/components/schemas/" + twin(v, i) for v in u["variants"]}}
             if u["disc"] == "mapping2":
                 # non-injective mapping: a second discriminator value for the first variant
                 s["discriminator"]["mapping"]["alt"] = "#/components/schemas/" + twin(u["variants"][0], i)
         elif u["disc"] == "implicit":
-            s["discriminator"] = {"propertyName": "kind"}
-        schemas[f"U{i}"] = s
-        schemas[f"Holder{i}"] = {"type": "object", "properties": {"u": R(f"U{i}"), "us": {"type": "array", "items": R(f"U{i}")}}}
+            s["discriminator"] = {"propertyName": u.get("prop", "kind")}
+        un = u.get("uname") or f"U{i}"
+        schemas[un] = s
+        schemas[f"Holder{i}"] = {"type": "object", "properties": {"u": R(un), "us": {"type": "array", "items": R(un)}}}
     return {"openapi": "3.0.3", "info": {"title": "U", "version": "1"}, "paths": {}, "components": {"schemas": schemas}}
 
 
@@ -125,16 +135,16 @@ def payloads(u, i=0):
             else:
                 val = v.lower() if u["disc"] in ("mapping", "mapping2") else twin(v, i)
                 q = dict(p)
-                q["kind"] = val
+                q[u.get("prop", "kind")] = val
                 out.append((f"{v}:{json.dumps(p)}+kind", q, {"class": twin(v, i)}))
                 if u["disc"] == "mapping2" and v == u["variants"][0]:
                     q2 = dict(p)
-                    q2["kind"] = "alt"
+                    q2[u.get("prop", "kind")] = "alt"
                     out.append((f"{v}:{json.dumps(p)}+kind=alt", q2, {"class": twin(v, i)}))
     if u["nullable"]:
         out.append(("null", None, {}))
     if u["disc"] != "none":
-        out.append(("unmapped", {"kind": "nope", "a": "x", "b": 1}, {"error": True}))
+        out.append(("unmapped", {u.get("prop", "kind"): "nope", "a": "x", "b": 1}, {"error": True}))
         for v in u["variants"]:
             req = VARIANTS[v][0].get("required", [])
             if req:
@@ -142,7 +152,7 @@ def payloads(u, i=0):
                 # payload of a mapped variant that lacks its required fields but would fit another variant
                 other = {"c": True, "b": 2} if "a" in req else {"a": "x", "c": True}
                 q = dict(other)
-                q["kind"] = val
+                q[u.get("prop", "kind")] = val
                 for r in req:
                     q.pop(r, None)
                 out.append((f"invalid-{v}", q, {"error": True}))
